@@ -544,6 +544,7 @@ def s_geom():
             # in metres and the same mesh in microns are both legal inputs)
             "s": draw(st.one_of(gen.q(0.25, 4), gen.q(0.25, 4),
                                 st.tuples(gen.q(1, 9, 8), st.integers(-6, 6)).map(lambda t: float("%ge%d" % (t[0], t[1]))))),
+            "alt_dtype": draw(st.sampled_from(["int64", "int64", "int32", "float32"])),
         }
 
     return s()
@@ -696,6 +697,38 @@ def c_geom(case, ctx):
         if asserted and V_sc.shape == (n, 3) and all(nondeg):
             ctx.expect(close(V_sc[asserted], V[asserted], atol=1e-7, rtol=0), "vertex_normals.change_under_scale",
                        lambda: "scale %r\n%s" % (s, describe(V_sc[asserted], V[asserted])))
+
+    # ---- the same coordinates stored in another dtype give the same geometry (integer pixel / voxel coordinates are
+    # legal mesh points): coordinates rounded to a 1/4 grid and scaled to integers, compared float64 vs int64 / float32
+    Pi = np.round(P * 4.0)
+    alt = case.get("alt_dtype", "int64")
+    ctx.event("alternative coordinate dtype %s" % alt)
+    m_f = TriMesh(Pi.astype(np.float64), trilist=Tn)
+    m_a = TriMesh(Pi.astype(alt), trilist=Tn)
+    refAi = np.array([ref_area(Pi.tolist(), tri) for tri in T])
+    okt = refAi >= 0.5  # triangles that did not collapse in the rounding
+    tol_alt = 1e-9 if alt != "float32" else 1e-4
+    Li = float(max(np.abs(Pi).max(), 1.0))
+    for nm, sc in (("tri_areas", Li * Li), ("edge_lengths", Li)):
+        a_, f_ = np.asarray(getattr(m_a, nm)(), dtype=float), np.asarray(getattr(m_f, nm)(), dtype=float)
+        ctx.expect(a_.shape == f_.shape and close(a_, f_, rtol=0, atol=tol_alt * sc), "dtype.%s_depend_on_coordinate_dtype" % nm,
+                   lambda: "%s\n%s" % (alt, describe(a_, f_)))
+    if d == 3 and okt.any():
+        a_, f_ = np.asarray(m_a.tri_normals(), dtype=float), np.asarray(m_f.tri_normals(), dtype=float)
+        ctx.expect(close(a_[okt], f_[okt], rtol=0, atol=1e3 * tol_alt), "dtype.tri_normals_depend_on_coordinate_dtype", lambda: describe(a_[okt], f_[okt]))
+        # vertices all of whose triangles survived the rounding and whose incident normals do not cancel
+        a_, f_ = np.asarray(m_a.vertex_normals(), dtype=float), np.asarray(m_f.vertex_normals(), dtype=float)
+        keep = []
+        for v in range(n):
+            inc = [k for k, tri in enumerate(T) if v in tri]
+            if inc and all(okt[k] for k in inc):
+                sv = np.sum([ref_unit_normal(Pi.tolist(), T[k]) for k in inc], axis=0)
+                if float(np.linalg.norm(sv)) >= 0.05:
+                    keep.append(v)
+        if keep:
+            ctx.event("dtype: >=1 vertex normal compared across dtypes")
+            ctx.expect(close(a_[keep], f_[keep], rtol=0, atol=1e3 * tol_alt), "dtype.vertex_normals_depend_on_coordinate_dtype",
+                       lambda: "%s vertices %s\n%s" % (alt, keep, describe(a_[keep], f_[keep])))
 
 
 # ==============================================================================================
